@@ -333,7 +333,7 @@ theorem direct_stable (ordered : List Node) (succs preds : Node → List Node)
   | succ m ih =>
     intro hm n hn k hk
     have hlt : m < ordered.length := hm
-    rw [List.take_succ, List.getElem?_eq_getElem hlt] at hn
+    rw [List.take_add_one, List.getElem?_eq_getElem hlt] at hn
     simp only [Option.toList_some, List.mem_append, List.mem_singleton] at hn
     rcases hn with hn | hn
     · rw [ih (by omega) n hn k (by omega), ih (by omega) n hn (m + 1) (by omega)]
